@@ -124,7 +124,8 @@ def run_unit(unit, rng, ctx):
     freq, freq_std = (float(x) for x in M.attempt_frequency())
 
     # ---- scaling laws (metamorphic: two runs of the real code) ---------------------------------
-    k = float(rng.uniform(0.3, 4.0))
+    # cell scale: usually of order one, in a third of the cases over six decades (1e-4 .. 1e2)
+    k = float(rng.uniform(0.3, 4.0)) if unit['i'] % 3 else float(10.0 ** rng.uniform(-4, 2))
     s = float(rng.uniform(0.3, 4.0))
     Mk = TrajectoryMetrics(gen.make_trajectory(m * k, sp, U - np.floor(U), time_step=dt, metadata={'temperature': temp}))
     Ms = TrajectoryMetrics(gen.make_trajectory(m, sp, U - np.floor(U), time_step=dt * s, metadata={'temperature': temp}))
